@@ -8,7 +8,7 @@ CONFIG = dict(
              "the wallet file first), after a crash at ANY prefix and ANY tear point the saved file holds exactly its previous "
              "or exactly the new content (crash_safe, crash_safe_probed, crash_safe_create for files that do not exist yet), no other loader-visible file changes and the leftover "
              "temporary file is invisible to the wallet loader (tmp_invisible, crash_view), hence any start-up that succeeds on "
-             "the old and on the new directory succeeds on every crash state (startup_ok, kv_crash_safe). Proved through a "
+             "the old and on the new directory succeeds on every crash state (startup_ok, kv_crash_safe); after ANY number of interrupted attempts, repeated with the same or other data, the file holds its original content or the data of one attempt, nothing else is touched, and a retry that completes stores exactly the new data whatever temporary file was left behind (attempts_safe, retry_complete, retry_crash_safe, attempts_others_untouched). Proved through a "
              "general soundness theorem for a decidable crash-safety checker, so the proof re-checks whatever sequence the "
              "source has now. Tie: each run traces real saves (wallet.Service UpdateWalletLabel/NewAddresses/ScanAddresses/"
              "EncryptWallet/CreateWallet, kvstorage add/remove) with strace, requires the traced syscall sequence to equal the "
